@@ -100,6 +100,7 @@ class _CommentClaimer(Generic[_M]):
                 if token.claimed:
                     break
                 if id(token) in self._comments_to_claim:
+                    self._comments_to_claim.discard(id(token))
                     yield token
             else:
                 break
